@@ -85,7 +85,27 @@ fn main() {
         },
     }
 
-    let known = drivers::run(&driver, &mut ctx);
+    // A panic that escapes a driver: inside the harness it is a harness error (exit 101, as before); inside the library
+    // it happened in a call the driver made with valid arguments on a valid structure and did not expect to panic
+    // (accessors, Clone, PartialEq, serialization). That is reported as a violation, with what was observed up to then.
+    let outcome = std::panic::catch_unwind(std::panic::AssertUnwindSafe(|| drivers::run(&driver, &mut ctx)));
+    let known = match outcome {
+        Ok(k) => k,
+        Err(payload) => {
+            let last = util::last_panic();
+            if last.contains("/harness/src/") || last.contains("harness-snap") || last.is_empty() { std::panic::resume_unwind(payload); }
+            let place = last.rsplit(" @ ").next().unwrap_or("").rsplit("/src/").next().unwrap_or("").to_string();
+            if driver == "c08" {
+                // C08 is about memory safety only: a panic is a legal outcome there, so this only cuts the workload short.
+                ctx.inconclusive(format!("the library panicked outside a monitored call ({}); the rest of this shard's workload was not run", last));
+            } else {
+                ctx.violation(&format!("library_panic.unguarded.{}", place), format!("the library panicked in a call that cannot legitimately panic (driver {} part {:?}, case #{}): {}", driver, ctx.part, ctx.case_no, last));
+                ctx.inconclusive("the rest of this shard's workload was not run (unwound by the panic above)".to_string());
+            }
+            std::mem::forget(payload);
+            true
+        },
+    };
     if !known {
         println!("VMON-HARNESS-ERROR unknown driver {}", driver);
         std::process::exit(2);
